@@ -1803,11 +1803,23 @@ func lemmaForwardSession(raw *rawEnvelope) (e *Session, e3 *Session, accepted bo
 //@   modifies c.state
 //@   ensures c.state == state
 
+// The two functions run (at most once each) by setState / Close through sync.Once.
+//@ func (*channel).startReceiver
+//@   props C06 C07 C08 C14
+//@   trusted spawns the receiver goroutine (receiveFromTransport, verified separately; the spawn site is pinned by the C06 census/onref obligations); sequentially it only records the cancel function
+//@   requires c != nil
+//@   modifies c.cancel
+
+//@ func (*channel).stopReceiver
+//@   props C06 C07 C08 C14
+//@   requires c != nil
+//@   modifies nothing
+
 //@ func (*channel).setState
 //@   props C06 C07 C08
 //@   requires c != nil
 //@   panics only-if step(state) < step(c.state)
-//@   modifies c.state, c.startRcv.fired, c.stopRcv.fired
+//@   modifies c.state, c.startRcv.fired, c.stopRcv.fired, c.cancel
 //@   ensures c.state == state
 //@   ensures state == SessionStateEstablished ==> c.startRcv.fired
 //@   ensures state != SessionStateEstablished ==> c.startRcv.fired == old(c.startRcv.fired)
@@ -1892,7 +1904,7 @@ func lemmaForwardSession(raw *rawEnvelope) (e *Session, e3 *Session, accepted bo
 //@   ensures step(c.state) >= step(old(c.state))
 //@   requires cliOK(c)
 //@   panics only-if ctx == nil
-//@   modifies c.localNode, c.remoteNode, c.sessionID, c.state, c.startRcv.fired, c.stopRcv.fired, c.transport.nRecv, c.transport.lastRecv, recvClock, c.transport.connected
+//@   modifies c.localNode, c.remoteNode, c.sessionID, c.state, c.startRcv.fired, c.stopRcv.fired, c.transport.nRecv, c.transport.lastRecv, recvClock, c.transport.connected, c.cancel
 //@   ensures err == nil ==> result0 != nil && c.sessionID == result0.ID && c.state == result0.State
 //@   ensures err != nil ==> result0 == nil
 //@   ensures err == nil && result0.State == SessionStateEstablished ==> c.localNode == result0.To && c.remoteNode == result0.From
@@ -1909,7 +1921,7 @@ func lemmaForwardSession(raw *rawEnvelope) (e *Session, e3 *Session, accepted bo
 //@   ensures step(c.state) >= step(old(c.state))
 //@   requires cliOK(c) && c.transport.nRecv == 0
 //@   panics only-if ctx == nil
-//@   modifies c.localNode, c.remoteNode, c.sessionID, c.state, c.startRcv.fired, c.stopRcv.fired, c.transport.nRecv, c.transport.lastRecv, recvClock, c.transport.connected, c.transport.nSent, c.transport.lastSent, c.transport.nSentSes, c.transport.lastSes, c.transport.stage, c.transport.offerEnc, c.transport.offerComp, c.transport.offerSchemes, c.transport.confEnc, c.transport.confComp
+//@   modifies c.localNode, c.remoteNode, c.sessionID, c.state, c.startRcv.fired, c.stopRcv.fired, c.transport.nRecv, c.transport.lastRecv, recvClock, c.transport.connected, c.transport.nSent, c.transport.lastSent, c.transport.nSentSes, c.transport.lastSes, c.transport.stage, c.transport.offerEnc, c.transport.offerComp, c.transport.offerSchemes, c.transport.confEnc, c.transport.confComp, c.cancel
 //@   ensures err == nil ==> result0 != nil && synced(c.channel) && recvSes(c.channel) == result0 && c.transport.nRecv == 1
 //@   ensures err == nil && result0.State == SessionStateEstablished ==> c.localNode == result0.To && c.remoteNode == result0.From
 //@   ensures err == nil && (result0.State == SessionStateFinished || result0.State == SessionStateFailed) ==> !c.transport.connected
@@ -1923,7 +1935,7 @@ func lemmaForwardSession(raw *rawEnvelope) (e *Session, e3 *Session, accepted bo
 //@   ensures step(c.state) >= step(old(c.state))
 //@   requires cliOK(c) && c.transport.nRecv > 0 && synced(c.channel)
 //@   panics only-if ctx == nil
-//@   modifies c.localNode, c.remoteNode, c.sessionID, c.state, c.startRcv.fired, c.stopRcv.fired, c.transport.nRecv, c.transport.lastRecv, recvClock, c.transport.connected, c.transport.nSent, c.transport.lastSent, c.transport.nSentSes, c.transport.lastSes, c.transport.stage, c.transport.offerEnc, c.transport.offerComp, c.transport.offerSchemes, c.transport.confEnc, c.transport.confComp
+//@   modifies c.localNode, c.remoteNode, c.sessionID, c.state, c.startRcv.fired, c.stopRcv.fired, c.transport.nRecv, c.transport.lastRecv, recvClock, c.transport.connected, c.transport.nSent, c.transport.lastSent, c.transport.nSentSes, c.transport.lastSes, c.transport.stage, c.transport.offerEnc, c.transport.offerComp, c.transport.offerSchemes, c.transport.confEnc, c.transport.confComp, c.cancel
 //@   ensures err == nil ==> result0 != nil && synced(c.channel) && recvSes(c.channel) == result0 && c.transport.nRecv > 0
 //@   ensures err == nil && result0.State == SessionStateEstablished ==> c.localNode == result0.To && c.remoteNode == result0.From
 //@   ensures err == nil && (result0.State == SessionStateFinished || result0.State == SessionStateFailed) ==> !c.transport.connected
@@ -1936,7 +1948,7 @@ func lemmaForwardSession(raw *rawEnvelope) (e *Session, e3 *Session, accepted bo
 //@   ensures step(c.state) >= step(old(c.state))
 //@   requires cliOK(c) && c.transport.nRecv > 0 && synced(c.channel) && auth != nil
 //@   panics only-if ctx == nil
-//@   modifies c.localNode, c.remoteNode, c.sessionID, c.state, c.startRcv.fired, c.stopRcv.fired, c.transport.nRecv, c.transport.lastRecv, recvClock, c.transport.connected, c.transport.nSent, c.transport.lastSent, c.transport.nSentSes, c.transport.lastSes, c.transport.stage, c.transport.offerEnc, c.transport.offerComp, c.transport.offerSchemes, c.transport.confEnc, c.transport.confComp
+//@   modifies c.localNode, c.remoteNode, c.sessionID, c.state, c.startRcv.fired, c.stopRcv.fired, c.transport.nRecv, c.transport.lastRecv, recvClock, c.transport.connected, c.transport.nSent, c.transport.lastSent, c.transport.nSentSes, c.transport.lastSes, c.transport.stage, c.transport.offerEnc, c.transport.offerComp, c.transport.offerSchemes, c.transport.confEnc, c.transport.confComp, c.cancel
 //@   ensures err == nil ==> result0 != nil && synced(c.channel) && recvSes(c.channel) == result0 && c.transport.nRecv > 0
 //@   ensures err == nil && result0.State == SessionStateEstablished ==> c.localNode == result0.To && c.remoteNode == result0.From
 //@   ensures err == nil && (result0.State == SessionStateFinished || result0.State == SessionStateFailed) ==> !c.transport.connected
@@ -1953,7 +1965,7 @@ func lemmaForwardSession(raw *rawEnvelope) (e *Session, e3 *Session, accepted bo
 //@   ensures step(c.state) >= step(old(c.state))
 //@   requires cliOK(c) && c.transport.nRecv > 0
 //@   panics only-if ctx == nil
-//@   modifies c.localNode, c.remoteNode, c.sessionID, c.state, c.startRcv.fired, c.stopRcv.fired, c.transport.nRecv, c.transport.lastRecv, recvClock, c.transport.connected, c.transport.nSent, c.transport.lastSent, c.transport.nSentSes, c.transport.lastSes, c.transport.stage, c.transport.offerEnc, c.transport.offerComp, c.transport.offerSchemes, c.transport.confEnc, c.transport.confComp
+//@   modifies c.localNode, c.remoteNode, c.sessionID, c.state, c.startRcv.fired, c.stopRcv.fired, c.transport.nRecv, c.transport.lastRecv, recvClock, c.transport.connected, c.transport.nSent, c.transport.lastSent, c.transport.nSentSes, c.transport.lastSes, c.transport.stage, c.transport.offerEnc, c.transport.offerComp, c.transport.offerSchemes, c.transport.confEnc, c.transport.confComp, c.cancel
 //@   ensures err == nil ==> result0 != nil && c.state == result0.State
 //@   ensures err == nil && (result0.State == SessionStateFinished || result0.State == SessionStateFailed) ==> !c.transport.connected
 
@@ -1971,7 +1983,7 @@ func lemmaForwardSession(raw *rawEnvelope) (e *Session, e3 *Session, accepted bo
 //@   props C08
 //@   requires cliOK(c) && c.transport.nRecv == 0
 //@   panics only-if ctx == nil || authenticator == nil || c.state != SessionStateNew || compSelector == nil || encryptSelector == nil
-//@   modifies c.localNode, c.remoteNode, c.sessionID, c.state, c.startRcv.fired, c.stopRcv.fired, c.transport.nRecv, c.transport.lastRecv, recvClock, c.transport.connected, c.transport.nSent, c.transport.lastSent, c.transport.nSentSes, c.transport.lastSes, c.transport.stage, c.transport.offerEnc, c.transport.offerComp, c.transport.offerSchemes, c.transport.confEnc, c.transport.confComp, c.transport.enc, c.transport.comp
+//@   modifies c.localNode, c.remoteNode, c.sessionID, c.state, c.startRcv.fired, c.stopRcv.fired, c.transport.nRecv, c.transport.lastRecv, recvClock, c.transport.connected, c.transport.nSent, c.transport.lastSent, c.transport.nSentSes, c.transport.lastSes, c.transport.stage, c.transport.offerEnc, c.transport.offerComp, c.transport.offerSchemes, c.transport.confEnc, c.transport.confComp, c.transport.enc, c.transport.comp, c.cancel
 //@   loop 0 invariant ses != nil && c.sessionID == ses.ID && c.state == ses.State && c.transport.nRecv > 0 && cliOK(c)
 //@   loop 0 invariant step(c.state) < 3 ==> synced(c.channel) && recvSes(c.channel) == ses
 //@   loop 0 invariant c.startRcv.fired && !old(c.startRcv.fired) ==> step(c.state) >= 3
@@ -2081,7 +2093,7 @@ func lemmaForwardSession(raw *rawEnvelope) (e *Session, e3 *Session, accepted bo
 //@ func (*ServerChannel).FailSession
 //@   props C03 C07 C14
 //@   requires srvInv(c)
-//@   modifies c.state, c.startRcv.fired, c.stopRcv.fired, c.transport.nSent, c.transport.lastSent, c.transport.nSentSes, c.transport.lastSes, c.transport.connected, c.transport.stage, c.transport.offerEnc, c.transport.offerComp, c.transport.offerSchemes, c.transport.confEnc, c.transport.confComp
+//@   modifies c.state, c.startRcv.fired, c.stopRcv.fired, c.transport.nSent, c.transport.lastSent, c.transport.nSentSes, c.transport.lastSes, c.transport.connected, c.transport.stage, c.transport.offerEnc, c.transport.offerComp, c.transport.offerSchemes, c.transport.confEnc, c.transport.confComp, c.cancel
 //@   ensures @failed result == nil ==> c.state == SessionStateFailed && c.transport.stage == 6 && c.transport.nSentSes == old(c.transport.nSentSes) + 1 && c.transport.lastSes.Reason == reason && c.transport.lastSes.State == SessionStateFailed && !c.transport.connected
 //@   ensures @noprogress result != nil ==> !old(transportOK(c.channel)) || c.state == SessionStateFailed
 //@   ensures srvInv(c) && step(c.state) >= step(old(c.state))
@@ -2093,7 +2105,7 @@ func lemmaForwardSession(raw *rawEnvelope) (e *Session, e3 *Session, accepted bo
 //@ func (*ServerChannel).FinishSession
 //@   props C07 C14
 //@   requires srvInv(c)
-//@   modifies c.state, c.startRcv.fired, c.stopRcv.fired, c.transport.nSent, c.transport.lastSent, c.transport.nSentSes, c.transport.lastSes, c.transport.connected, c.transport.stage, c.transport.offerEnc, c.transport.offerComp, c.transport.offerSchemes, c.transport.confEnc, c.transport.confComp
+//@   modifies c.state, c.startRcv.fired, c.stopRcv.fired, c.transport.nSent, c.transport.lastSent, c.transport.nSentSes, c.transport.lastSes, c.transport.connected, c.transport.stage, c.transport.offerEnc, c.transport.offerComp, c.transport.offerSchemes, c.transport.confEnc, c.transport.confComp, c.cancel
 //@   ensures result == nil ==> c.state == SessionStateFinished && c.transport.stage == 5 && !c.transport.connected
 //@   ensures c.startRcv.fired == old(c.startRcv.fired)
 //@   ensures srvInv(c) && step(c.state) >= step(old(c.state))
@@ -2149,7 +2161,7 @@ func lemmaForwardSession(raw *rawEnvelope) (e *Session, e3 *Session, accepted bo
 //@   requires srvInv(c)
 //@   requires [C07] @clientword c.state == SessionStateNew && effStage(c.transport) == 0 && firstWordOK(c)
 //@   panics only-if ctx == nil
-//@   modifies c.state, c.startRcv.fired, c.stopRcv.fired, c.transport.nRecv, c.transport.lastRecv, recvClock, c.transport.connected, c.transport.nSent, c.transport.lastSent, c.transport.nSentSes, c.transport.lastSes, c.transport.stage, c.transport.offerEnc, c.transport.offerComp, c.transport.offerSchemes, c.transport.confEnc, c.transport.confComp
+//@   modifies c.state, c.startRcv.fired, c.stopRcv.fired, c.transport.nRecv, c.transport.lastRecv, recvClock, c.transport.connected, c.transport.nSent, c.transport.lastSent, c.transport.nSentSes, c.transport.lastSes, c.transport.stage, c.transport.offerEnc, c.transport.offerComp, c.transport.offerSchemes, c.transport.confEnc, c.transport.confComp, c.cancel
 //@   ensures err == nil ==> result0 != nil && istype(c.transport.lastRecv, *Session) && recvSes(c.channel) == result0 && c.state == SessionStateNegotiating && c.transport.nSentSes > 0 && c.transport.stage == 1
 //@   ensures err == nil ==> c.transport.offerEnc == encryptOptions && c.transport.offerComp == compOptions && len(compOptions) > 0 && len(encryptOptions) > 0
 //@   ensures srvInv(c) && step(c.state) >= step(old(c.state)) && c.startRcv.fired == old(c.startRcv.fired)
@@ -2174,7 +2186,7 @@ func lemmaForwardSession(raw *rawEnvelope) (e *Session, e3 *Session, accepted bo
 //@   requires srvInv(c)
 //@   requires [C07] @clientword c.state == SessionStateNew && effStage(c.transport) == 0 && firstWordOK(c)
 //@   panics only-if ctx == nil
-//@   modifies c.state, c.startRcv.fired, c.stopRcv.fired, c.transport.nRecv, c.transport.lastRecv, recvClock, c.transport.connected, c.transport.nSent, c.transport.lastSent, c.transport.nSentSes, c.transport.lastSes, c.transport.stage, c.transport.offerEnc, c.transport.offerComp, c.transport.offerSchemes, c.transport.confEnc, c.transport.confComp, c.transport.enc, c.transport.comp
+//@   modifies c.state, c.startRcv.fired, c.stopRcv.fired, c.transport.nRecv, c.transport.lastRecv, recvClock, c.transport.connected, c.transport.nSent, c.transport.lastSent, c.transport.nSentSes, c.transport.lastSes, c.transport.stage, c.transport.offerEnc, c.transport.offerComp, c.transport.offerSchemes, c.transport.confEnc, c.transport.confComp, c.transport.enc, c.transport.comp, c.cancel
 //@   loop 0 invariant 0 <= it_ && it_ <= len(compOpts) && compOptsMap != nil && subset(domof(compOptsMap), elems(compOpts))
 //@   loop 1 invariant 0 <= it_ && it_ <= len(encryptOpts) && encryptOptsMap != nil && subset(domof(encryptOptsMap), elems(encryptOpts)) && compOptsMap != nil && subset(domof(compOptsMap), elems(compOpts))
 //@   ensures [C09,C10] @applied result == nil && c.state == SessionStateNegotiating ==> c.transport.stage == 2 && c.transport.nSentSes > 0 && c.transport.enc == c.transport.confEnc && c.transport.comp == c.transport.confComp && inset(elems(encryptOpts), c.transport.confEnc) && inset(elems(compOpts), c.transport.confComp)
@@ -2194,7 +2206,7 @@ func lemmaForwardSession(raw *rawEnvelope) (e *Session, e3 *Session, accepted bo
 //@   requires [C09] @switched switched(c)
 //@   requires [C10] @policy policy(c)
 //@   panics only-if ctx == nil
-//@   modifies c.state, c.startRcv.fired, c.stopRcv.fired, c.transport.nRecv, c.transport.lastRecv, recvClock, c.transport.connected, c.transport.nSent, c.transport.lastSent, c.transport.nSentSes, c.transport.lastSes, c.transport.stage, c.transport.offerEnc, c.transport.offerComp, c.transport.offerSchemes, c.transport.confEnc, c.transport.confComp
+//@   modifies c.state, c.startRcv.fired, c.stopRcv.fired, c.transport.nRecv, c.transport.lastRecv, recvClock, c.transport.connected, c.transport.nSent, c.transport.lastSent, c.transport.nSentSes, c.transport.lastSes, c.transport.stage, c.transport.offerEnc, c.transport.offerComp, c.transport.offerSchemes, c.transport.confEnc, c.transport.confComp, c.cancel
 //@   ensures err == nil ==> result0 != nil && istype(c.transport.lastRecv, *Session) && recvSes(c.channel) == result0 && c.state == SessionStateAuthenticating && c.transport.nSentSes > 0 && c.transport.stage == 3 && c.transport.offerSchemes == schemeOpts && c.transport.nRecv > 0
 //@   ensures srvInv(c) && step(c.state) >= step(old(c.state)) && c.startRcv.fired == old(c.startRcv.fired)
 //@   ensures c.state == old(c.state) || c.state == SessionStateAuthenticating
@@ -2218,7 +2230,7 @@ func lemmaForwardSession(raw *rawEnvelope) (e *Session, e3 *Session, accepted bo
 //@   requires [C03] @evidence authEvidence(c, node)
 //@   requires [C07] @clientword c.state == SessionStateAuthenticating && c.transport.nSentSes > 0 && c.transport.stage == 3
 //@   requires [C10] @policy policy(c)
-//@   modifies c.state, c.remoteNode, c.startRcv.fired, c.stopRcv.fired, c.transport.connected, c.transport.nSent, c.transport.lastSent, c.transport.nSentSes, c.transport.lastSes, c.transport.stage, c.transport.offerEnc, c.transport.offerComp, c.transport.offerSchemes, c.transport.confEnc, c.transport.confComp
+//@   modifies c.state, c.remoteNode, c.startRcv.fired, c.stopRcv.fired, c.transport.connected, c.transport.nSent, c.transport.lastSent, c.transport.nSentSes, c.transport.lastSes, c.transport.stage, c.transport.offerEnc, c.transport.offerComp, c.transport.offerSchemes, c.transport.confEnc, c.transport.confComp, c.cancel
 //@   ensures [C03] @announce result == nil ==> c.state == SessionStateEstablished && c.remoteNode == node && c.transport.stage == 4 && c.transport.nSentSes > 0 && c.transport.lastSes.To == node && c.transport.lastSes.ID == c.sessionID && c.transport.lastSes.From == c.localNode
 //@   ensures c.state == SessionStateEstablished || c.state == old(c.state)
 //@   ensures c.state == SessionStateEstablished ==> c.startRcv.fired
@@ -2233,7 +2245,7 @@ func lemmaForwardSession(raw *rawEnvelope) (e *Session, e3 *Session, accepted bo
 //@   requires [C09] @switched switched(c)
 //@   requires [C10] @policy policy(c)
 //@   panics only-if ctx == nil
-//@   modifies c.state, c.remoteNode, c.startRcv.fired, c.stopRcv.fired, c.transport.nRecv, c.transport.lastRecv, recvClock, c.transport.connected, c.transport.nSent, c.transport.lastSent, c.transport.nSentSes, c.transport.lastSes, c.transport.stage, c.transport.offerEnc, c.transport.offerComp, c.transport.offerSchemes, c.transport.confEnc, c.transport.confComp, authN, authClock, authIdentity, authArg, authRes, authErr, regN, regClock, regSeqAuth, regCand, regChan, regRes, regErr
+//@   modifies c.state, c.remoteNode, c.startRcv.fired, c.stopRcv.fired, c.transport.nRecv, c.transport.lastRecv, recvClock, c.transport.connected, c.transport.nSent, c.transport.lastSent, c.transport.nSentSes, c.transport.lastSes, c.transport.stage, c.transport.offerEnc, c.transport.offerComp, c.transport.offerSchemes, c.transport.confEnc, c.transport.confComp, authN, authClock, authIdentity, authArg, authRes, authErr, regN, regClock, regSeqAuth, regCand, regChan, regRes, regErr, c.cancel
 //@   loop 0 invariant 0 <= it_ && it_ <= len(schemeOpts) && schemeOptsMap != nil && subset(domof(schemeOptsMap), elems(schemeOpts))
 //@   loop 1 invariant srvInv(c) && ses != nil && err == nil && schemeOptsMap != nil && subset(domof(schemeOptsMap), elems(schemeOpts)) && policy(c)
 //@   loop 1 invariant c.state == SessionStateAuthenticating ==> istype(c.transport.lastRecv, *Session) && recvSes(c.channel) == ses && c.transport.nSentSes > 0 && c.transport.stage == 3 && c.transport.offerSchemes == schemeOpts
@@ -2256,7 +2268,7 @@ func lemmaForwardSession(raw *rawEnvelope) (e *Session, e3 *Session, accepted bo
 //@   entry-ghost c.cfgEnc = elems(encryptOpts)
 //@   entry-ghost c.cfgComp = elems(compOpts)
 //@   panics only-if ctx == nil || compOpts == nil || encryptOpts == nil || authenticate == nil || register == nil
-//@   modifies c.cfgEnc, c.cfgComp, c.state, c.remoteNode, c.startRcv.fired, c.stopRcv.fired, c.transport.nRecv, c.transport.lastRecv, recvClock, c.transport.connected, c.transport.nSent, c.transport.lastSent, c.transport.nSentSes, c.transport.lastSes, c.transport.stage, c.transport.offerEnc, c.transport.offerComp, c.transport.offerSchemes, c.transport.confEnc, c.transport.confComp, c.transport.enc, c.transport.comp, authN, authClock, authIdentity, authArg, authRes, authErr, regN, regClock, regSeqAuth, regCand, regChan, regRes, regErr
+//@   modifies c.cfgEnc, c.cfgComp, c.state, c.remoteNode, c.startRcv.fired, c.stopRcv.fired, c.transport.nRecv, c.transport.lastRecv, recvClock, c.transport.connected, c.transport.nSent, c.transport.lastSent, c.transport.nSentSes, c.transport.lastSes, c.transport.stage, c.transport.offerEnc, c.transport.offerComp, c.transport.offerSchemes, c.transport.confEnc, c.transport.confComp, c.transport.enc, c.transport.comp, authN, authClock, authIdentity, authArg, authRes, authErr, regN, regClock, regSeqAuth, regCand, regChan, regRes, regErr, c.cancel
 //@   loop 0 invariant 0 <= it_ && it_ <= len(rng_) && atloop(boxedComp(rng_, it_)) && len(negCompOpts) == it_ && subset(elems(negCompOpts), elems(rng_))
 //@   loop 1 invariant 0 <= it_ && it_ <= len(rng_) && atloop(boxedEnc(rng_, it_)) && len(negEncryptOpts) == it_ && subset(elems(negEncryptOpts), elems(rng_))
 //@   ensures [C14] @closedorestablished result == nil && c.state != SessionStateEstablished ==> !c.transport.connected
@@ -2276,7 +2288,7 @@ func lemmaForwardSession(raw *rawEnvelope) (e *Session, e3 *Session, accepted bo
 //@ func (*channel).Close
 //@   props C14
 //@   requires c != nil && c.transport != nil
-//@   modifies c.stopRcv.fired, c.transport.connected
+//@   modifies c.stopRcv.fired, c.transport.connected, c.cancel
 //@   ensures !c.transport.connected
 
 // The dispatch loop runs handlers and overlaps with the receiver goroutine:
@@ -2284,7 +2296,7 @@ func lemmaForwardSession(raw *rawEnvelope) (e *Session, e3 *Session, accepted bo
 //@ func (*EnvelopeMux).ListenServer
 //@   props C14 C20
 //@   requires m != nil && srvInv(c)
-//@   modifies c.state, c.startRcv.fired, c.stopRcv.fired, c.transport.nRecv, c.transport.lastRecv, recvClock, c.transport.connected, c.transport.nSent, c.transport.lastSent, c.transport.nSentSes, c.transport.lastSes, c.transport.stage, c.transport.offerEnc, c.transport.offerComp, c.transport.offerSchemes, c.transport.confEnc, c.transport.confComp
+//@   modifies c.state, c.startRcv.fired, c.stopRcv.fired, c.transport.nRecv, c.transport.lastRecv, recvClock, c.transport.connected, c.transport.nSent, c.transport.lastSent, c.transport.nSentSes, c.transport.lastSes, c.transport.stage, c.transport.offerEnc, c.transport.offerComp, c.transport.offerSchemes, c.transport.confEnc, c.transport.confComp, c.cancel
 //@   trusted summarises the established phase (dispatch loop + concurrent receiver); its sequential part is verified as (*EnvelopeMux).listen
 //@   ensures srvInv(c) && step(c.state) >= step(old(c.state)) && c.startRcv.fired == old(c.startRcv.fired)
 
@@ -2302,7 +2314,7 @@ func lemmaForwardSession(raw *rawEnvelope) (e *Session, e3 *Session, accepted bo
 //@   requires srv != nil && srv.config != nil && srv.mux != nil && ctx != nil
 //@   requires srvInv(c) && c.state == SessionStateNew && effStage(c.transport) == 0 && !c.startRcv.fired
 //@   requires srv.config.CompOpts != nil && srv.config.EncryptOpts != nil && srv.config.Authenticate != nil && srv.config.Register != nil
-//@   modifies c.cfgEnc, c.cfgComp, c.state, c.remoteNode, c.startRcv.fired, c.stopRcv.fired, c.transport.nRecv, c.transport.lastRecv, recvClock, c.transport.connected, c.transport.nSent, c.transport.lastSent, c.transport.nSentSes, c.transport.lastSes, c.transport.stage, c.transport.offerEnc, c.transport.offerComp, c.transport.offerSchemes, c.transport.confEnc, c.transport.confComp, c.transport.enc, c.transport.comp, authN, authClock, authIdentity, authArg, authRes, authErr, regN, regClock, regSeqAuth, regCand, regChan, regRes, regErr, estN, estID, estChan, finN, finID
+//@   modifies c.cfgEnc, c.cfgComp, c.state, c.remoteNode, c.startRcv.fired, c.stopRcv.fired, c.transport.nRecv, c.transport.lastRecv, recvClock, c.transport.connected, c.transport.nSent, c.transport.lastSent, c.transport.nSentSes, c.transport.lastSes, c.transport.stage, c.transport.offerEnc, c.transport.offerComp, c.transport.offerSchemes, c.transport.confEnc, c.transport.confComp, c.transport.enc, c.transport.comp, authN, authClock, authIdentity, authArg, authRes, authErr, regN, regClock, regSeqAuth, regCand, regChan, regRes, regErr, estN, estID, estChan, finN, finID, c.cancel
 //@   oncall [C14] role:finished : c.startRcv.fired && a_sessionID == c.sessionID
 //@   ensures [C14] @released !c.startRcv.fired ==> !c.transport.connected && estN == old(estN) && finN == old(finN)
 //@   ensures [C14] @nocallbacks estN == old(estN) && srv.config.Established != nil ==> finN == old(finN) && !c.transport.connected
